@@ -39,6 +39,12 @@ class Driver:
                 area = self.uni["areas"][arg - 1]
                 # an area that was cleared and is added again is the same object (clearing and re-creating areas)
                 proto = self.made.get(arg)
+                if proto is None and area.get("sideloaded"):
+                    # an externally annotated protocluster (universes that ask for it only)
+                    from antismash.common.secmet.features.protocluster import SideloadedProtocluster  # pylint: disable=import-outside-toplevel
+                    proto = SideloadedProtocluster(build.loc(area["core"]), build.loc(area["extent"]), tool="verif",
+                                                   product=area["product"], neighbourhood_range=1)
+                    self.made[arg] = proto
                 if proto is None:
                     proto = Protocluster(build.loc(area["core"]), build.loc(area["extent"]), tool="verif",
                                          product=area["product"], cutoff=1, neighbourhood_range=1, detection_rule="rule")
